@@ -574,6 +574,7 @@ func (c *Ctx) privateSlice(fn *ssa.Function, cell *ssa.Alloc, cast *ssa.Convert)
 		}
 	}
 	// forward: none of the tracked slice values reaches anything that could keep it
+	var writes []ssa.Instruction
 	for len(work) > 0 {
 		v := work[len(work)-1]
 		work = work[:len(work)-1]
@@ -592,10 +593,19 @@ func (c *Ctx) privateSlice(fn *ssa.Function, cell *ssa.Alloc, cast *ssa.Convert)
 			case *ssa.Phi:
 				add(x)
 			case *ssa.IndexAddr, *ssa.Index, *ssa.Lookup:
+			case *ssa.Convert:
+				// string(b) copies the bytes
+				if bt, isB := x.Type().Underlying().(*types.Basic); !isB || bt.Info()&types.IsString == 0 {
+					return "it flows into " + c.describe(r) + ", where it may be retained", r
+				}
 			case *ssa.Call:
 				if isBuiltin(x, "append") || isBuiltin(x, "len") || isBuiltin(x, "cap") || isBuiltin(x, "copy") {
 					if isBuiltin(x, "append") && x.Call.Args[0] == v {
 						add(x)
+						writes = append(writes, x)
+					}
+					if isBuiltin(x, "copy") && x.Call.Args[0] == v {
+						writes = append(writes, x)
 					}
 					continue
 				}
@@ -614,6 +624,7 @@ func (c *Ctx) privateSlice(fn *ssa.Function, cell *ssa.Alloc, cast *ssa.Convert)
 						}
 					}
 					if leak == "" {
+						writes = append(writes, x) // a builder appends to (writes into) the buffer
 						continue
 					}
 					return "it is handed to " + g.Name() + ", which " + leak, x
@@ -622,6 +633,13 @@ func (c *Ctx) privateSlice(fn *ssa.Function, cell *ssa.Alloc, cast *ssa.Convert)
 			default:
 				return "it flows into " + c.describe(r) + ", where it may be retained", r
 			}
+		}
+	}
+	// the unsafe string shares the buffer: once it exists nothing may write into the buffer again
+	// (re-using it for a second key rewrites the bytes the first key's string still points at)
+	for _, w := range writes {
+		if w.Parent() == cast.Parent() && reachAvoiding(cast, false, func(i ssa.Instruction) bool { return i == w }, nil) != nil {
+			return "the buffer is written again (" + c.describe(w) + ") after the unsafe string view of it was taken, while that string is still in use: the key changes under its user", w
 		}
 	}
 	return "", nil
